@@ -60,6 +60,20 @@ pub fn check(sc: &Scenario, out: &RunOutput) -> OracleResult {
         }
     }
 
+    // rto_retransmissions at the end of the poll each event belongs to
+    let mut rto_at_poll_end = vec![0usize; evs.len()];
+    {
+        let mut start = 0usize;
+        for (i, (_, _, x)) in evs.iter().enumerate() {
+            if let X::Snap(s) = x {
+                for f in rto_at_poll_end.iter_mut().take(i + 1).skip(start) {
+                    *f = s.rto_retransmissions;
+                }
+                start = i + 1;
+            }
+        }
+    }
+
     let mut segs: BTreeMap<u16, Seg> = BTreeMap::new();
     let mut fin: Option<(u16, Vec<(T, bool)>, Option<T>)> = None; // seq, emissions, acked
     let mut max_acked_len: usize = w.mss_floor;
@@ -410,6 +424,10 @@ pub fn check(sc: &Scenario, out: &RunOutput) -> OracleResult {
                         }
                     } else if retransmission && !in_rto_mode {
                         fast_rtx += 1;
+                    } else if retransmission && in_rto_mode && rto_at_poll_end[i] > 0 && !backpressure {
+                        // timeout recovery was in progress before this poll and still is after
+                        // it: nothing but the timer retransmits (duplicate ACKs do not trigger)
+                        res.violate(P, "retransmission-during-timeout-recovery", t, format!("seq {} re-emitted by something other than the retransmission timer while a timeout recovery is in progress ({} timeouts without an acknowledgement of new data)", p.seq, rto_at_poll_end[i]));
                     }
                     if is_rto || timer_start.is_none() {
                         timer_start = Some(t);
